@@ -4271,8 +4271,11 @@ where
                 }
             })?;
 
-            // Replace empty TDS with simplex TDS (preserve kernel)
+            // Replace empty TDS with simplex TDS (preserve kernel). Keep the generation counter
+            // monotone across the swap so generation-keyed views of the old TDS become stale.
+            let previous_generation = self.tds.generation();
             self.tds = new_tds;
+            self.tds.advance_generation_past(previous_generation);
 
             // Re-map vertex key to the rebuilt TDS
             v_key = self
